@@ -16,10 +16,14 @@ import (
 	"fmt"
 	"io"
 	"log"
+	"net/url"
 	"sort"
 	"time"
 
 	"github.com/WICG/webpackage/go/bundle"
+	"github.com/WICG/webpackage/go/bundle/signature"
+	bversion "github.com/WICG/webpackage/go/bundle/version"
+	"github.com/WICG/webpackage/go/verifhook"
 	"github.com/WICG/webpackage/go/signedexchange"
 	"github.com/WICG/webpackage/go/signedexchange/certurl"
 	"github.com/WICG/webpackage/go/signedexchange/mice"
@@ -214,4 +218,99 @@ var readerMakers = map[string][]func(c *core.Ctx) *inst{
 	"C05": {func(c *core.Ctx) *inst { return bundleReadInst(c, "rbundle") }},
 	"C17": {func(c *core.Ctx) *inst { return certReadInst(c, "rchain") }},
 	"C15": {func(c *core.Ctx) *inst { return miDecodeInst(c, "rmice") }},
+}
+
+// bsigVerifyInst: one signed bundle file; each call reads it, builds a Verifier
+// and verifies every exchange (C06).
+func bsigVerifyInst(c *core.Ctx, label string) *inst {
+	leaf := fixturesLeaf(c, label)
+	host := leaf.Hosts[0]
+	if host[0] == '*' {
+		host = "sub" + host[1:]
+	}
+	ver := bversion.Version(c.PickStr(label+".version", "b1", "b2"))
+	b := &bundle.Bundle{Version: ver}
+	n := c.Int(label+".nex", 1, 3)
+	for i := 0; i < n; i++ {
+		u, _ := url.Parse(fmt.Sprintf("https://%s/r%d", host, i))
+		if i == n-1 && n > 1 && c.Bool(label+".uncovered") {
+			u, _ = url.Parse(fmt.Sprintf("https://uncovered.invalid/r%d", i))
+		}
+		r := gen.DrawResp(c, label+".resp", i)
+		r.DirectMap = false
+		if len(r.Body) > 1500 {
+			r.Body = r.Body[:1500]
+		}
+		b.Exchanges = append(b.Exchanges, &bundle.Exchange{Request: bundle.Request{URL: u}, Response: bundle.Response{Status: r.Status, Header: r.Header(), Body: r.Body}})
+	}
+	b.PrimaryURL = b.Exchanges[0].Request.URL
+	date := c.I64(label+".date", 1600000000, 1700000000)
+	chain, err := certurl.NewCertChain(certsOf(leaf), []byte("ocsp"), nil)
+	if err != nil {
+		panic(err)
+	}
+	vu, _ := url.Parse("https://" + host + "/validity")
+	signer, err := signature.NewSigner(ver, chain, leaf.Key, vu, time.Unix(date, 0), time.Hour)
+	if err != nil {
+		panic(err)
+	}
+	signer.Algorithm, _ = verifhook.SigningAlgorithmForPrivateKey(leaf.Key, fixtures.ConstReader{B: byte(c.Int(label+".entropy", 0, 255))})
+	rs := c.PickInt(label+".rs", 16, 100, 4096)
+	for _, e := range b.Exchanges {
+		if !signer.CanSignForURL(e.Request.URL) {
+			continue
+		}
+		pih, err := e.AddPayloadIntegrity(ver, rs)
+		if err != nil {
+			panic(err)
+		}
+		if err := signer.AddExchange(e, pih); err != nil {
+			panic(err)
+		}
+	}
+	if b.Signatures, err = signer.UpdateSignatures(nil); err != nil {
+		panic(err)
+	}
+	var buf bytes.Buffer
+	if _, err := b.WriteTo(&buf); err != nil {
+		panic(err)
+	}
+	file := buf.Bytes()
+	if c.Chance(label+".damaged", 1, 4) {
+		file = c.CorruptBlob(label+".blob", file, nil)
+	}
+	tm := time.Unix(date+c.I64(label+".t", 0, 3600), 0)
+	in := &inst{name: label + ":bundle.Read+NewVerifier+VerifyExchange", props: []string{"C06"}}
+	in.run = func(w io.Writer) error {
+		rb, err := bundle.Read(bytes.NewReader(file))
+		if err != nil || rb.Signatures == nil {
+			_, werr := io.WriteString(w, "unreadable-or-unsigned")
+			return werr
+		}
+		v, err := signature.NewVerifier(rb.Signatures, tm, rb.Version)
+		if err != nil {
+			_, werr := io.WriteString(w, "verifier-refused")
+			return werr
+		}
+		var o bytes.Buffer
+		for _, e := range rb.Exchanges {
+			r, err := v.VerifyExchange(e)
+			switch {
+			case err != nil:
+				fmt.Fprintf(&o, "%v|refused\n", e.Request.URL)
+			case r == nil:
+				fmt.Fprintf(&o, "%v|unsigned\n", e.Request.URL)
+			default:
+				fmt.Fprintf(&o, "%v|%x|%x\n", e.Request.URL, r.VerifiedPayload, fnvOf(r.Authority.Cert.Raw))
+			}
+		}
+		_, werr := w.Write(o.Bytes())
+		return werr
+	}
+	in.sharedHash = func() uint64 { return fnvOf(file[:cap(file)]) }
+	return in
+}
+
+func init() {
+	readerMakers["C06"] = []func(c *core.Ctx) *inst{func(c *core.Ctx) *inst { return bsigVerifyInst(c, "rbsig") }}
 }
